@@ -151,3 +151,120 @@ Check C09_timestampsdirect_age_partition.
 Print Assumptions C09_timestampsdirect_age_partition.
 Check C09_timestampsdirect_name_in_period.
 Print Assumptions C09_timestampsdirect_name_in_period.
+
+Require Import FL.Flw.NumDInv FL.Flw.NumDRun FL.Flw.NumDAge.
+(* NumbersDirect naming (r00000, r00001, ..; no rCURRENT), any criterion, every history (also with the clock set back): the
+   rotation flag of every write is the oracle's decision *)
+Theorem C09_numbersdirect_age_flags c crit t0 off ops i o b :
+  numdcfg c crit -> Forall basic_op ops -> nth_error ops i = Some o -> (o = OWrite b \/ o = OPlain b) ->
+  nth_error (snd (run (sys0 t0 off) (OStart c :: ops))) (S i)
+  = Some (ObsRes 0
+      match last_opt (tpartition (age_of crit) (lim_of crit) off [] None (titems t0 (firstn i ops))) with
+      | None => false
+      | Some (start, content) => rotate_due (age_of crit) (lim_of crit) off start content (clock_run t0 (firstn i ops))
+      end).
+Proof. exact (numbersdirect_age_flags c crit t0 off ops i o b). Qed.
+
+(* ... and the directory consists exactly of r00000 .. r(n) with the contents of the oracle's period partition *)
+Theorem C09_numbersdirect_age_partition c crit t0 off ops :
+  numdcfg c crit -> Forall basic_op ops ->
+  direct_view c (wfs (s_w (fst (run (sys0 t0 off) (OStart c :: ops ++ [OStop])))))
+              (List.map snd (tpartition (age_of crit) (lim_of crit) off [] None (titems t0 ops))).
+Proof. exact (numbersdirect_age_partition c crit t0 off ops). Qed.
+
+(* the property itself, without the executable oracle (pure age criterion) *)
+Theorem C09_numbersdirect_age_periods_pure c a t0 off ops :
+  numdcfg c (CAge a) -> Forall basic_op ops ->
+  exists fl : list rfile,
+    direct_view c (wfs (s_w (fst (run (sys0 t0 off) (OStart c :: ops ++ [OStop]))))) (List.map rbytes fl)
+    /\ concat (List.map rrecs fl) = trecs t0 ops
+    /\ (forall f t b, In f fl -> In (t, b) (rrecs f) -> period_of a (t + off) = period_of a (rstart f + off))
+    /\ (forall f, In f fl -> rtrig f = false -> exists b rest, rrecs f = (rstart f, b) :: rest)
+    /\ List.map rstart (filter rtrig fl) = trig_times false t0 ops
+    /\ (forall i f1 f2, nth_error fl i = Some f1 -> nth_error fl (S i) = Some f2 -> rtrig f2 = false ->
+          period_of a (rstart f1 + off) <> period_of a (rstart f2 + off))
+    /\ (ticks_nonneg ops -> forall i f1 f2, nth_error fl i = Some f1 -> nth_error fl (S i) = Some f2 ->
+          (period_of a (rstart f1 + off) <= period_of a (rstart f2 + off))%Z
+          /\ (rtrig f2 = false -> (period_of a (rstart f1 + off) < period_of a (rstart f2 + off))%Z)).
+Proof. exact (numbersdirect_age_periods_pure c a t0 off ops). Qed.
+
+Check C09_numbersdirect_age_flags.
+Print Assumptions C09_numbersdirect_age_flags.
+Check C09_numbersdirect_age_partition.
+Print Assumptions C09_numbersdirect_age_partition.
+Check C09_numbersdirect_age_periods_pure.
+Print Assumptions C09_numbersdirect_age_periods_pure.
+
+Require Import FL.Fs.Fs FL.Time.TsFormat FL.Flw.NumFs FL.Flw.NumInv FL.Flw.TsAge.
+(* Timestamps naming with rCURRENT, any criterion: the rotation flag of every write is the oracle's decision *)
+Theorem C09_timestamps_age_flags c crit t0 off ops i o b :
+  tscfg c crit -> tag_ok c -> Forall basic_op ops -> Forall tick_ok ops ->
+  (0 <= t0 + ts_e c off)%Z -> (t0 + elapsed ops + ts_e c off < sec_max)%Z -> (N.of_nat (length ops) <= usize_max)%N ->
+  nth_error ops i = Some o -> (o = OWrite b \/ o = OPlain b) ->
+  nth_error (snd (run (sys0 t0 off) (OStart c :: ops))) (S i)
+  = Some (ObsRes 0
+      match last_opt (tpartition (age_of crit) (lim_of crit) off [] None (titems t0 (firstn i ops))) with
+      | None => false
+      | Some (start, content) => rotate_due (age_of crit) (lim_of crit) off start content (clock_run t0 (firstn i ops))
+      end).
+Proof. exact (timestamps_age_flags c crit t0 off ops i o b). Qed.
+
+(* ... the files left are exactly the oracle's period partition - all but the last one closed, the last one rCURRENT -, and the
+   second of each key - the time stamp in the name of a closed file - is the instant at which that file was STARTED *)
+Theorem C09_timestamps_age_partition c crit t0 off ops :
+  tscfg c crit -> tag_ok c -> Forall basic_op ops -> Forall tick_ok ops ->
+  (0 <= t0 + ts_e c off)%Z -> (t0 + elapsed ops + ts_e c off < sec_max)%Z -> (N.of_nat (length ops) <= usize_max)%N ->
+  let tf := tpartition (age_of crit) (lim_of crit) off [] None (titems t0 ops) in
+  let f := wfs (s_w (fst (run (sys0 t0 off) (OStart c :: ops ++ [OStop])))) in
+  (tf = [] /\ names f = [])
+  \/ exists keys closed st cur,
+       tf = closed ++ [(st, cur)]
+       /\ ts_view c (ts_e c off) f keys (List.map snd closed) cur
+       /\ List.map fst keys = List.map fst closed
+       /\ keys_ok keys
+       /\ (forall k, In k keys -> (t0 <= fst k <= st)%Z) /\ (t0 <= st <= t0 + elapsed ops)%Z.
+Proof. exact (timestamps_age_partition c crit t0 off ops). Qed.
+
+(* ... in terms of the records: a file that has been closed (it has a successor) is found under the time stamp of its START
+   (the instant of its first record unless rotate() started it), not of its closing (the start of its successor) *)
+Theorem C09_timestamps_name_is_start c crit t0 off ops :
+  tscfg c crit -> tag_ok c -> Forall basic_op ops -> Forall tick_ok ops ->
+  (0 <= t0 + ts_e c off)%Z -> (t0 + elapsed ops + ts_e c off < sec_max)%Z -> (N.of_nat (length ops) <= usize_max)%N ->
+  let fl := age_files crit off t0 ops in
+  let f := wfs (s_w (fst (run (sys0 t0 off) (OStart c :: ops ++ [OStop])))) in
+  forall i fi fnext, nth_error fl i = Some fi -> nth_error fl (S i) = Some fnext ->
+    let pos := length (filter (fun g : rfile => Z.eqb (rstart g) (rstart fi)) (firstn i fl)) in
+    (exists j, lookup f (nm c (expected_ts_infix (c_utc c) off std_fmt (rstart fi)
+                               ++ match pos with O => [] | S k => restart_tag ++ pad_left 4 48%N (dec (N.of_nat k)) end)) = Some j
+               /\ plain (inode f j) /\ content f j = rbytes fi)
+    /\ (rtrig fi = false -> exists b rest, rrecs fi = (rstart fi, b) :: rest)
+    /\ (rstart fi <= rstart fnext)%Z.
+Proof. exact (timestamps_name_is_start c crit t0 off ops). Qed.
+
+(* ... and this instant lies in the period of every record of the file *)
+Theorem C09_timestamps_name_in_period c crit a t0 off ops :
+  tscfg c crit -> tag_ok c -> Forall basic_op ops -> Forall tick_ok ops ->
+  (0 <= t0 + ts_e c off)%Z -> (t0 + elapsed ops + ts_e c off < sec_max)%Z -> (N.of_nat (length ops) <= usize_max)%N ->
+  age_of crit = Some a ->
+  let fl := age_files crit off t0 ops in
+  let f := wfs (s_w (fst (run (sys0 t0 off) (OStart c :: ops ++ [OStop])))) in
+  (fl = [] /\ names f = [])
+  \/ exists keys cl cur,
+       fl = cl ++ [cur]
+       /\ ts_view c (ts_e c off) f keys (List.map rbytes cl) (rbytes cur)
+       /\ keys_ok keys
+       /\ (forall i g, nth_error cl i = Some g ->
+             fst (nth i keys kd) = rstart g
+             /\ (forall t b, In (t, b) (rrecs g) -> period_of a (t + off) = period_of a (fst (nth i keys kd) + off))
+             /\ (rtrig g = false -> exists b rest, rrecs g = (fst (nth i keys kd), b) :: rest))
+       /\ (forall t b, In (t, b) (rrecs cur) -> period_of a (t + off) = period_of a (rstart cur + off)).
+Proof. exact (timestamps_name_in_period c crit a t0 off ops). Qed.
+
+Check C09_timestamps_age_flags.
+Print Assumptions C09_timestamps_age_flags.
+Check C09_timestamps_age_partition.
+Print Assumptions C09_timestamps_age_partition.
+Check C09_timestamps_name_is_start.
+Print Assumptions C09_timestamps_name_is_start.
+Check C09_timestamps_name_in_period.
+Print Assumptions C09_timestamps_name_in_period.
